@@ -20,6 +20,8 @@ def formals(inp):
             p += ": $" + PARAMS[int(d[3]) - 1]
         elif d == "glob":
             p += ": $g"
+        elif d == "next":                       # a variable named like the NEXT parameter (definition site: 42, 43, 44)
+            p += ": $" + PARAMS[j]
         out.append(p)
     if inp["rest"]:
         out.append("$r...")
@@ -27,10 +29,15 @@ def formals(inp):
 
 
 def call_args(inp):
-    """-> (declarations needed before the call, argument text)"""
+    """-> (declarations needed before the call, argument text, text of the outer call when the arguments are forwarded)"""
     pre, args = [], []
     pos = [str(10 + i) for i in range(1, inp["npos"] + 1)]
-    if inp["psplat"] == "all":
+    outer = None
+    if inp["psplat"] == "fwd":
+        # positional and explicit named arguments arrive as a forwarded argument list
+        outer = ", ".join(pos + [f"${n}: {NAMED_VAL[n]}" for n in inp["named"]])
+        args.append("$args...")
+    elif inp["psplat"] == "all":
         pre.append("$l: (" + ", ".join(pos) + ("," if len(pos) == 1 else "") + ");")
         args.append("$l...")
     elif inp["psplat"] == "tail":
@@ -39,12 +46,12 @@ def call_args(inp):
         args += [pos[0], "$l..."]
     else:
         args += pos
-    if inp["nsplat"] == "all":
-        pre.append("$mp: (" + ", ".join(f"{n}: {NAMED_VAL[n]}" for n in inp["named"]) + ");")
-        args.append("$mp...")
-    else:
+    if inp["psplat"] != "fwd":
         args += [f"${n}: {NAMED_VAL[n]}" for n in inp["named"]]
-    return pre, ", ".join(args)
+    if inp["mnamed"]:
+        pre.append("$mp: (" + ", ".join(f"{n}: {NAMED_VAL[n] + 40}" for n in inp["mnamed"]) + ");")
+        args.append("$mp...")
+    return pre, ", ".join(args), outer
 
 
 def body_probe(inp, fn):
@@ -62,21 +69,36 @@ def body_probe(inp, fn):
     return "o { z: 0; " + " ".join(props) + " }"
 
 
+OUTER = "$g: 40; $b-x: 42; $c: 43; $d: 44;\n"      # definition-site variables (some named like parameters)
+
+
 def render_bind(inp):
-    pre, args = call_args(inp)
+    pre, args, outer = call_args(inp)
     ctx = inp["ctx"]
     f = formals(inp)
     pre_t = " ".join(pre)
+    if outer is not None:
+        # the call is made by a forwarding mixin / function that received the arguments as $args...
+        if ctx == "mixin":
+            return (f"{OUTER}@mixin m({f}) {{ {body_probe(inp, False)} }}\n"
+                    f"@mixin fwd($args...) {{ $g: 41; {pre_t} @include m({args}); }}\n"
+                    f"q {{ @include fwd({outer}); }}\n")
+        if ctx == "function":
+            return (f"{OUTER}@function f({f}) {{ {body_probe(inp, True)} }}\n"
+                    f"@function fwd($args...) {{ $g: 41; {pre_t} @return f({args}); }}\n"
+                    f"q {{ v: inspect(fwd({outer})); }}\n")
+        return (f"{OUTER}@mixin w($args...) {{ $g: 41; {pre_t} @content({args}); }}\n"
+                f"q {{ @include w({outer}) using ({f}) {{ {body_probe(inp, False)} }} }}\n")
     if ctx == "mixin":
-        return (f"$g: 40;\n@mixin m({f}) {{ {body_probe(inp, False)} }}\n"
+        return (f"{OUTER}@mixin m({f}) {{ {body_probe(inp, False)} }}\n"
                 f"q {{ $g: 41; {pre_t} @include m({args}); }}\n")
     if ctx == "function":
-        return (f"$g: 40;\n@function f({f}) {{ {body_probe(inp, True)} }}\n"
+        return (f"{OUTER}@function f({f}) {{ {body_probe(inp, True)} }}\n"
                 f"q {{ $g: 41; {pre_t} v: inspect(f({args})); }}\n")
     if ctx == "content":
         # the block is declared at the include site (global $g: 40 visible); @content(args) is evaluated
         # inside the mixin, which has its own $g: 41
-        return (f"$g: 40;\n@mixin w {{ $g: 41; {pre_t} @content({args}); }}\n"
+        return (f"{OUTER}@mixin w {{ $g: 41; {pre_t} @content({args}); }}\n"
                 f"q {{ @include w using ({f}) {{ {body_probe(inp, False)} }} }}\n")
     raise ValueError(ctx)
 
@@ -169,19 +191,22 @@ class C18(VectorEngine):
     trace = ("Trace_Bind", "Trace_Bind.cfg")
     spec_op = "Bind!Ideal / Scope!Ideal"
     rule = ("(1) signatures x call shapes generated by MC_Bind.tla: 0..3 parameters (required / constant default / default referring to an "
-            "earlier parameter / default referring to a variable of the definition site that the call site shadows) with or without a rest "
-            "parameter x calls with 0..4 positional and subsets of named arguments (hyphen/underscore spellings, unknown names, the rest "
-            "parameter's own name), passed directly, through a list splat, a map splat or both; in mixins, functions and @content/using; "
+            "earlier parameter / default referring to a variable of the definition site that the call site shadows / default referring to a "
+            "definition-site variable named like the NEXT parameter) with or without a rest parameter x calls with 0..4 positional and subsets "
+            "of named arguments (hyphen/underscore spellings, unknown names, the rest parameter's own name), passed directly, through a list "
+            "splat, together with a map splat whose keys may repeat explicit names, or forwarded as an argument list; in mixins, functions and @content/using; "
             "(2) function bodies with up to 3 @return items (plain, under @if, inside @each/@while) - first reached wins; "
             "(3) closure / @content programs generated by MC_Scope.tla over callable block kinds (mixin / function defined at top level or in "
             "place, content block with and without using-parameter, wrapper mixin with locals of its own) with declarations that shadow a name "
             "at the call / include site. non-trivial = defined expectation; distinct = distinct input. "
             "Flow B: random signatures with up to 4 parameters and random callable programs up to depth 4, validated by Trace_Bind.tla.")
     assumptions = ["values are distinct integers identifying where an argument came from; keywords are compared sorted by name",
-                   "a named argument given both explicitly and through a map splat, map-splat keys with underscores and functions without @return are outside the property (not generated)",
+                   "a name passed explicitly (or as keyword of a forwarded argument list) and again as key of a map splat: the property admits an error or exactly one argument of that name with either value (Bind!Admissible); the reference behaviour (map value wins) is the expected one",
+                   "map-splat keys with underscores and functions without @return are outside the property (not generated)",
                    "closure programs only declare fresh variables or shadow globals, so that the assignment defects recorded under C16 do not interfere"]
     mc_runs = {
         "quick": [("MC_Bind", "MC_Bind_C18_a.cfg", {"workers": 4}), ("MC_Bind", "MC_Bind_C18_b.cfg", {"workers": 4}),
+                  ("MC_Bind", "MC_Bind_C18_c.cfg", {"workers": 4}),
                   ("MC_Bind", "MC_Bind_C18_ret.cfg", {"workers": 2}), ("MC_Scope", "MC_Scope_C18_a.cfg", {"workers": 4})],
         "thorough": [("MC_Bind", "MC_Bind_C18_a.cfg", {"workers": 4}), ("MC_Bind", "MC_Bind_C18_t.cfg", {"workers": 4, "timeout": 1800}),
                      ("MC_Bind", "MC_Bind_C18_rett.cfg", {"workers": 4}), ("MC_Scope", "MC_Scope_C18_t.cfg", {"workers": 4, "timeout": 1800})],
@@ -190,7 +215,12 @@ class C18(VectorEngine):
 
     # vectors of MC_Bind carry {"inp": ..}; vectors of MC_Scope carry {"prog": ..}
     def strip(self, vec):
-        return {"prog": vec["prog"]} if "prog" in vec else {"inp": vec["inp"]}
+        if "prog" in vec:
+            return {"prog": vec["prog"]}
+        if vec.get("adm"):
+            # a name passed explicitly and by a map splat: Bind!Admissible lists what the property admits (adm[0] = expect)
+            return {"inp": vec["inp"], "adm": vec["adm"]}
+        return {"inp": vec["inp"]}
 
     def render(self, inp):
         if "prog" in inp:
@@ -201,10 +231,13 @@ class C18(VectorEngine):
     def project(self, inp, res):
         if "prog" in inp:
             return scope_engine.project_out(res)
-        return project_bind(inp["inp"], res)
+        obs = project_bind(inp["inp"], res)
+        if inp.get("adm") and obs in inp["adm"]:
+            return inp["adm"][0]           # any admissible outcome (a set computed by TLA+) stands for the expected one
+        return obs
 
     def key(self, inp):
-        return inp
+        return inp.get("prog") or inp.get("inp")
 
     def dev_matches(self, predicted, obs):
         return predicted["k"] == "undef" or predicted == obs
@@ -235,19 +268,17 @@ class C18(VectorEngine):
         k = rng.randint(0, 4)
         defs = []
         for j in range(1, k + 1):
-            opts = ["req", "req", "const", "glob"] + [f"ref{i}" for i in range(1, j)]
+            opts = ["req", "req", "const", "glob"] + [f"ref{i}" for i in range(1, j)] + (["next"] if j <= 3 else [])
             defs.append(rng.choice(opts))
         npos = rng.randint(0, min(6, k + 2))
         pool = ["a", "b-x", "b_x", "c", "d", "r", "y", "z"]
         named = [s for s in pool if rng.random() < 0.25]
-        psplat = rng.choice(["none", "none", "all", "tail"])
+        psplat = rng.choice(["none", "none", "all", "tail", "fwd"])
         if psplat == "all" and npos < 1 or psplat == "tail" and npos < 2:
             psplat = "none"
-        nsplat = rng.choice(["none", "none", "all"])
-        if nsplat == "all" and (not named or "b_x" in named):
-            nsplat = "none"
+        mnamed = [s for s in ["a", "b-x", "c", "d", "r", "y", "z"] if rng.random() < 0.2] if rng.random() < 0.5 else []
         return {"kind": "bind", "ctx": rng.choice(["mixin", "function", "content"]), "defs": defs, "rest": rng.randint(0, 1),
-                "npos": npos, "named": named, "psplat": psplat, "nsplat": nsplat}
+                "npos": npos, "named": named, "mnamed": mnamed, "psplat": psplat}
 
     def gen_prog(self, rng):
         """random callable programs: fresh declarations only (a variable is never assigned below a block that declares or binds it)"""
